@@ -125,3 +125,19 @@ mod api {
 //@|     state_ranges(&global_state()),
 //@|     global_state().disable_api_if_not_fully_synced != Flag::Disabled ==> synced_spec(&global_state()),
 //@end
+
+// ---- C14 (last sentence): get_blockchain_info answers regardless of the access flag, the network flag and the sync status:
+// ---- its contract has no precondition on any of them and it calls no guard (lib.rs:202) -------------------------------------------
+//@extract file=canister/src/lib.rs item="fn get_blockchain_info" props=C14,C02
+//@ ret r
+//@ r7 ro="vp_state()" type=State
+//@ sigrewrite R3 "types::BlockchainInfo" => "BlockchainInfo"
+//@ spec
+//@| requires
+//@|     state_ranges(&global_state()),
+//@|     forall|b: int| deltas_in_range(b, global_state().unstable_blocks.tree.best_path()),
+//@| ensures
+//@|     ({ let s = global_state(); let tip = s.unstable_blocks.tree.best_path().last();
+//@|        &&& r.height == s.utxos.next_height + s.unstable_blocks.tree.best_path().len() - 1
+//@|        &&& r.block_hash@ == tip.block_hash.bytes_spec() }),
+//@end
